@@ -69,7 +69,9 @@ func (w *Writer) Finished() bool {
 // OnHeader implements packfile.Observer interface.
 func (w *Writer) OnHeader(count uint32) error {
 	w.count = count
-	w.objects = make(objects, 0, count)
+	// The count comes straight from the (untrusted) pack header: it sizes
+	// the first allocation only up to a bound, the slice grows from there.
+	w.objects = make(objects, 0, min(count, 1<<16))
 	return nil
 }
 
